@@ -6,14 +6,29 @@ namespace XsVerif.Driver.C10
 
 def natsOf (j : Json) : Except String (List Nat) := do (← j.getArr?).toList.mapM (·.getNat?)
 
+def optNat (j : Json) : Except String (Option Nat) :=
+  if j.isNull then pure none else do return some (← j.getNat?)
+
+def parseCtx (j : Json) : Except String Ctx := do
+  (← j.getArr?).toList.mapM fun p => do
+    let a ← p.getArr?
+    if h : a.size = 2 then return ((← a[0].getNat?), (← a[1].getBool?)) else throw "ctx"
+
 def parseStep (j : Json) : Except String Step := do
   let a ← j.getArr?
   if h : a.size ≥ 2 then
     match ← a[0].getStr? with
-    | "x" => if h4 : a.size = 4 then return .xsiType (← a[1].getNat?) (← a[2].getNat?) (← natsOf a[3]) else throw "x"
-    | "c" => if h3 : a.size = 3 then return .collect (← a[1].getNat?) (← a[2].getNat?) else throw "c"
+    | "e" => return .enter (← natsOf a[1])
+    | "x" => if h4 : a.size = 4 then return .xsiType (← a[1].getNat?) (← a[2].getNat?) (← optNat a[3]) else throw "x"
+    | "c" => return .collect (← a[1].getNat?)
+    | "l" =>
+      let ids ← (← a[1].getArr?).toList.mapM fun p => do
+        let b ← p.getArr?
+        if h2 : b.size = 2 then return ((← b[0].getNat?), (← optNat b[1])) else throw "l"
+      return .leave ids
+    | "s" => return .setCtx (← parseCtx a[1])
     | "m" => return .memoCall (← a[1].getNat?)
-    | "s" => return .scratchUse (← natsOf a[1])
+    | "z" => return .scratchUse (← natsOf a[1])
     | _ => throw "step"
   else throw "step"
 
@@ -21,47 +36,66 @@ def parseDoc (j : Json) : Except String (List Step) := do (← j.getArr?).toList
 
 def parseSch (j : Json) : Except String Sch := do
   let cx ← natsOf (← j.getObjVal? "complex")
-  let wid ← (← getArr j "widen").toList.mapM fun w => do
+  let wid ← (← getArr j "wtab").toList.mapM fun w => do
     let a ← w.getArr?
-    if h : a.size = 4 then return ((← a[0].getNat?), (← a[1].getNat?), (← a[2].getNat?), (← natsOf a[3]))
-    else throw "widen"
+    if h : a.size = 4 then return (((← a[0].getNat?), (← a[1].getNat?), (← a[2].getNat?)), (← natsOf a[3]))
+    else throw "wtab"
   let base ← (← getArr j "base").toList.mapM fun w => do
     let a ← w.getArr?
-    if h : a.size = 2 then return ((← a[0].getNat?), (← natsOf a[1])) else throw "base"
-  return {
-    complex := fun t => cx.contains t
-    widen := fun c d t => (wid.filter fun (c', d', t', _) => c' == c && d' == d && t' == t).flatMap (·.2.2.2)
-    base := fun c => (base.filter (·.1 == c)).flatMap (·.2)
-    pure := fun k => k }
+    if h : a.size = 2 then return ((← a[0].getNat?), (← a[1].getNat?)) else throw "base"
+  return { complex := cx, wtab := wid, base := base, pure := fun k => k }
 
 def pairLt (a b : Nat × Nat) : Bool := a.1 < b.1 || (a.1 == b.1 && a.2 < b.2)
 def pairsJ (l : List (Nat × Nat)) : Json :=
   Json.arr ((l.eraseDups.toArray.qsort pairLt).map fun (a, b) => Json.arr #[Json.num a, Json.num b])
 
-def obsJ : Obs → Json
-  | .collected b => Json.bool b
-  | .memo v => Json.num v
-  | .scratch s => Json.arr (s.map fun (n : Nat) => Json.num n).toArray
+def tripLt (a b : Nat × Nat × Nat) : Bool :=
+  a.1 < b.1 || (a.1 == b.1 && pairLt a.2 b.2)
+def tripsJ (l : List (Nat × Nat × Nat)) : Json :=
+  Json.arr ((l.eraseDups.toArray.qsort tripLt).map fun (a, b, c) => Json.arr #[Json.num a, Json.num b, Json.num c])
 
-/-- residue after every call of the history, observations of the last document from that residue
-    and from a fresh schema, for the code as it is (`gated`) and for the repaired algorithm -/
+def natsJ (l : List Nat) : Json := Json.arr ((l.eraseDups.toArray.qsort (· < ·)).map fun (n : Nat) => Json.num n)
+
+def ctxJ (c : Ctx) : Json := Json.arr (c.map fun (p : Con × Bool) => Json.arr #[Json.num p.1, Json.bool p.2]).toArray
+
+def obsJ : Obs → Json
+  | .collected c g => Json.mkObj [("ctx", ctxJ c), ("gate", natsJ g)]
+  | .memo v => Json.mkObj [("memo", Json.num v)]
+  | .scratch s => Json.mkObj [("scratch", Json.arr (s.map fun (n : Nat) => Json.num n).toArray)]
+
+def resJ (r : Res) : Json :=
+  Json.mkObj [
+    ("types", pairsJ (r.xsi.filterMap fun | .type d t => some (d, t) | _ => none)),
+    ("pairs", tripsJ (r.xsi.filterMap fun | .pair d t c => some (d, t, c) | _ => none)),
+    ("elems", pairsJ r.elems),
+    ("sel", pairsJ r.sel),
+    ("memo", natsJ (r.memo.map (·.1))),
+    ("scratch", Json.arr (r.scratch.map fun (n : Nat) => Json.num n).toArray)]
+
+def modeOf : String → Mode
+  | "old" => .old
+  | "ungated" => .ungated
+  | _ => .current
+
+/-- residue after every call of the history, observations of the last document from that residue and from
+    a fresh schema, for the algorithm named by `mode` (default: the code as it is); the guard of
+    `history_neutral_partial` for the document -/
 def handle (j : Json) : Except String Json := do
   let sch ← parseSch (← j.getObjVal? "sch")
   let hist ← (← getArr j "hist").toList.mapM parseDoc
   let doc ← parseDoc (← j.getObjVal? "doc")
-  let resJ (r : Res) : Json := Json.mkObj [("xsi", pairsJ r.xsi), ("bound", pairsJ r.bound)]
-  let trace := (List.range (hist.length + 1)).map fun k => resJ (after sch true (hist.take k))
-  let traceR := (List.range (hist.length + 1)).map fun k => resJ (after sch false (hist.take k))
-  let r := after sch true hist
-  let r' := after sch false hist
+  let m := modeOf ((j.getObjValAs? String "mode").toOption.getD "current")
+  let trace := (List.range (hist.length + 1)).map fun k => resJ (after sch m (hist.take k))
+  let r := after sch m hist
+  let used := call sch m r doc
+  let fresh := call sch m Res.init doc
   return Json.mkObj [
     ("trace", Json.arr trace.toArray),
-    ("trace_repaired", Json.arr traceR.toArray),
-    ("obs", Json.arr ((call sch true r doc).2.map obsJ).toArray),
-    ("fresh", Json.arr ((call sch true Res.init doc).2.map obsJ).toArray),
-    ("obs_repaired", Json.arr ((call sch false r' doc).2.map obsJ).toArray),
-    ("fresh_repaired", Json.arr ((call sch false Res.init doc).2.map obsJ).toArray),
-    ("after", resJ (call sch true r doc).1)]
+    ("obs", Json.arr (used.2.map obsJ).toArray),
+    ("fresh", Json.arr (fresh.2.map obsJ).toArray),
+    ("after", resJ used.1),
+    ("complete", Json.bool (complete doc)),
+    ("self_sufficient", Json.bool (selfSufficient sch (Res.init, []) doc))]
 
 end XsVerif.Driver.C10
 
